@@ -35,6 +35,16 @@ META = {
                    'PerformanceOneHotEncoding.encode_event'),
                   ('performance_encoder_decoder',
                    'PerformanceOneHotEncoding.decode_event'),
+                  ('performance_encoder_decoder',
+                   'PerformanceOneHotEncoding.__init__'),
+                  ('performance_encoder_decoder',
+                   'PerformanceOneHotEncoding.default_event'),
+                  ('performance_lib', 'PerformanceEvent._check_event'),
+                  ('drums_encoder_decoder',
+                   'MultiDrumOneHotEncoding.__init__'),
+                  ('performance_controls',
+                   'NoteDensityPerformanceControlSignal.__init__'),
+                  ('encoder_decoder', 'OneHotEncoding.event_to_num_steps'),
                   ('performance_lib', 'velocity_to_bin'),
                   ('performance_lib', 'velocity_bin_to_velocity'),
                   ('performance_lib', '_velocity_bin_size'),
@@ -48,16 +58,74 @@ META = {
         'fully concretised sub-claims: drum class index (512), chord class '
         'index (25/49), velocity-bin count (127), chord strings, drum pitch '
         'sets',
+        'oracle tables copied literally from the documentation: default drum '
+        'kit rows (first pitch = representative), chord layout root + 1 + 12 * '
+        'quality, constructor defaults 0 bins / 100 shift steps / pitches '
+        '0..127; chord root by own letter+accidental parser, triad quality by '
+        'chord_symbols_lib',
+        'default_event: only "is a valid event that encodes into range and '
+        'round-trips" (value pinned for melody only)',
+        'performance events of a type without classes (DURATION, VELOCITY with '
+        '0 bins) must be rejected; out-of-range values of a known type and '
+        'indices outside [0, num_classes) are undocumented and not examined',
     ],
     'bounds': {
-        'quick': 'melody/performance: all configurations (symbolic); density: '
-                 '<=3 boundaries; drums: all 512 indices, all sets of <=2 pitches; '
-                 'chords: all indices + 60 symbols',
+        'quick': 'melody/performance: all configurations (symbolic), also '
+                 'through constructor defaults and keywords; PerformanceEvent '
+                 'validator: types -1..7 x values -3..1000; velocity: all bins '
+                 '1..n of all n; density: <=3 boundaries, directly and through '
+                 'NoteDensityPerformanceControlSignal; drums: all 512 indices, '
+                 'all sets of <=2 pitches, triples with the 2nd/3rd pitch from '
+                 'every 5th table entry, custom tables of 3 and 10 types (all '
+                 'indices, pairs of pitches); chords: all indices + 60 symbols '
+                 '+ 18 other spellings',
         'thorough': 'density <=4 boundaries; drum sets of 3 pitches over the '
-                    'whole table + unknown pitches; ~700 chord symbols',
+                    'whole table + unknown pitches; ~1200 chord symbols',
     },
     'outside': ['drum sets of more than 3 pitches'],
 }
+
+
+# Literal copy of the documented default drum kit table
+# (drums_encoder_decoder.DEFAULT_DRUM_TYPE_PITCHES); the first pitch of a row is
+# the canonical representative of the drum type.
+_DRUMS = [
+    [36, 35],
+    [38, 27, 28, 31, 32, 33, 34, 37, 39, 40, 56, 65, 66, 75, 85],
+    [42, 44, 54, 68, 69, 70, 71, 73, 78, 80, 22],
+    [46, 67, 72, 74, 79, 81, 26],
+    [45, 29, 41, 43, 61, 64, 84],
+    [48, 47, 60, 63, 77, 86, 87],
+    [50, 30, 62, 76, 83],
+    [49, 52, 55, 57, 58],
+    [51, 53, 59, 82],
+]
+_CUSTOM_DRUMS = {
+    # pitches that the default table files under other drum types
+    'small': [[41, 40], [50], [62, 60, 61]],
+    # more types than the default kit has
+    'big': [[20], [21, 36], [22], [23], [24], [25], [26], [27], [28], [29, 99]],
+}
+_LETTER_PC = {'C': 0, 'D': 2, 'E': 4, 'F': 5, 'G': 7, 'A': 9, 'B': 11}
+
+
+def _root_pc(fig):
+  """Pitch class of the root of a chord figure: letter plus accidentals."""
+  pc = _LETTER_PC[fig[0]]
+  k = 1
+  while k < len(fig) and fig[k] in '#b':
+    pc += 1 if fig[k] == '#' else -1
+    k += 1
+  return pc % 12
+
+
+def _canonical_drums(ps, table):
+  """First listed pitch of every drum type of `table` that `ps` touches."""
+  return frozenset(row[0] for row in table if any(p in row for p in ps))
+
+
+def _popcount(i):
+  return bin(i).count('1')
 
 
 def h_melody(c):
@@ -91,6 +159,11 @@ def h_melody(c):
     c.check(c.eq(enc.decode_event(res), e), 'decode(encode(e)) == e')
     c.cover('valid event')
   c.check(c.eq(enc.default_event, -2) and True, 'default event')
+  # documented: 0 = no event, 1 = note-off event
+  c.check(c.And(c.eq(enc.encode_event(-2), 0), c.eq(enc.encode_event(-1), 1)),
+          'no-event is class 0 and note-off is class 1')
+  c.check(c.eq(enc.event_to_num_steps(ev), 1),
+          'event_to_num_steps defaults to one')
   c.cover('event just below min_note', c.And(e >= 0, c.eq(e, lo - 1)))
   c.cover('event equal to max_note', c.eq(e, hi))
 
@@ -106,6 +179,28 @@ def h_melody_ctor(c):
             'legal range rejected')
   else:
     c.check(legal, 'illegal range accepted')
+
+
+def _perf_event_ok(c, PE, ev, nv, ms, lo, hi):
+  """`ev` is one of the events the configuration has a class for."""
+  t, val = ev.event_type, ev.event_value
+  return c.Or(
+      c.And(c.Or(c.eq(t, PE.NOTE_ON), c.eq(t, PE.NOTE_OFF)),
+            val >= lo, val <= hi),
+      c.And(c.eq(t, PE.TIME_SHIFT), val >= 1, val <= ms),
+      c.And(c.eq(t, PE.VELOCITY), val >= 1, val <= nv))
+
+
+def _perf_default_ok(c, PE, enc, n, nv, ms, lo, hi):
+  de = enc.default_event
+  c.check(_perf_event_ok(c, PE, de, nv, ms, lo, hi),
+          'default event is an event of the configuration')
+  k = enc.encode_event(de)
+  c.check(c.And(k >= 0, k < n), 'default event encodes into [0, num_classes)')
+  back = enc.decode_event(k)
+  c.check(c.And(c.eq(back.event_type, de.event_type),
+                c.eq(back.event_value, de.event_value)),
+          'default event round-trips')
 
 
 def h_performance(c):
@@ -129,6 +224,7 @@ def h_performance(c):
   c.assume(i < n)
   ev = enc.decode_event(i)
   c.check(c.eq(enc.encode_event(ev), i), 'encode(decode(i)) == i')
+  _perf_default_ok(c, PE, enc, n, nv, ms, lo, hi)
   which = c.params['etype']
   if which == PE.VELOCITY:
     c.assume(nv > 0)
@@ -150,6 +246,118 @@ def h_performance(c):
           'event_to_num_steps')
 
 
+def h_performance_defaults(c):
+  """Constructor defaults (0 velocity bins, DEFAULT_MAX_SHIFT_STEPS = 100 shift
+  steps, pitches 0..127) and keyword names."""
+  ped = c.mod('performance_encoder_decoder')
+  pl = c.mod('performance_lib')
+  PE = pl.PerformanceEvent
+  form = c.params['form']
+  cls = ped.PerformanceOneHotEncoding
+  nv, ms, lo, hi = 0, 100, 0, 127
+  if form == 'none':
+    enc = cls()
+  elif form == 'bins':
+    nv = c.int('num_velocity_bins', 0, 127)
+    enc = cls(num_velocity_bins=nv)
+  elif form == 'shift':
+    ms = c.int('max_shift_steps', 1, 1000)
+    enc = cls(max_shift_steps=ms)
+  elif form == 'pitch':
+    lo = c.int('min_pitch', 0, 127)
+    hi = c.int('max_pitch', 0, 127)
+    c.assume(lo <= hi)
+    enc = cls(max_pitch=hi, min_pitch=lo)
+  else:
+    nv = c.int('num_velocity_bins', 0, 127)
+    ms = c.int('max_shift_steps', 1, 1000)
+    lo = c.int('min_pitch', 0, 127)
+    hi = c.int('max_pitch', 0, 127)
+    c.assume(lo <= hi)
+    enc = cls(max_pitch=hi, max_shift_steps=ms, min_pitch=lo,
+              num_velocity_bins=nv)
+  n = enc.num_classes
+  c.check(c.eq(n, 2 * (hi - lo + 1) + ms + nv), 'num_classes (defaults)')
+  _perf_default_ok(c, PE, enc, n, nv, ms, lo, hi)
+  i = c.int('index', 0, 2000)
+  c.assume(i < n)
+  ev = enc.decode_event(i)
+  c.check(c.eq(enc.encode_event(ev), i), 'encode(decode(i)) == i (defaults)')
+  which = c.choice('etype', [PE.NOTE_ON, PE.NOTE_OFF, PE.TIME_SHIFT,
+                             PE.VELOCITY])
+  if which == PE.VELOCITY:
+    c.assume(nv > 0)
+    v = c.int('value', 1, 127)
+    c.assume(v <= nv)
+  elif which == PE.TIME_SHIFT:
+    v = c.int('value', 1, 1000)
+    c.assume(v <= ms)
+  else:
+    v = c.int('value', 0, 127)
+    c.assume(c.And(v >= lo, v <= hi))
+  idx = enc.encode_event(PE(event_type=which, event_value=v))
+  c.check(c.And(idx >= 0, idx < n),
+          'encode lands in [0, num_classes) (defaults)')
+  d = enc.decode_event(idx)
+  c.check(c.And(c.eq(d.event_type, which), c.eq(d.event_value, v)),
+          'decode(encode(e)) == e (defaults)')
+
+
+def h_performance_foreign(c):
+  """Events of a type the configuration has no class for (DURATION; VELOCITY
+  when there are no velocity bins) are not valid events of the encoding: they
+  must be rejected, not silently given the class of some other event."""
+  ped = c.mod('performance_encoder_decoder')
+  pl = c.mod('performance_lib')
+  PE = pl.PerformanceEvent
+  ms = c.int('max_shift_steps', 1, 1000)
+  lo = c.int('min_pitch', 0, 127)
+  hi = c.int('max_pitch', 0, 127)
+  c.assume(lo <= hi)
+  which = c.params['etype']
+  if which == PE.VELOCITY:
+    nv = 0
+  else:
+    nv = c.int('num_velocity_bins', 0, 127)
+  enc = ped.PerformanceOneHotEncoding(nv, ms, lo, hi)
+  n = enc.num_classes
+  v = c.int('value', 1, 127)
+  e = PE(which, v)
+  res, err = c.raises(enc.encode_event, e)
+  if err is None:
+    ok = False
+    if res is not None:
+      d, err2 = c.raises(enc.decode_event, res)
+      if err2 is None:
+        ok = c.And(res >= 0, res < n, c.eq(d.event_type, which),
+                   c.eq(d.event_value, v))
+    c.check(ok, 'an event type without classes is rejected')
+  else:
+    c.cover('foreign event rejected')
+
+
+def h_event_validator(c):
+  """PerformanceEvent validates its contents: pitches 0..127, shifts >= 0,
+  velocity bins 1..127, durations >= 1, types 1..5 (ValueError otherwise)."""
+  pl = c.mod('performance_lib')
+  PE = pl.PerformanceEvent
+  t = c.int('event_type', -1, 7)
+  v = c.int('event_value', -3, 1000)
+  legal = c.Or(c.And(c.Or(c.eq(t, 1), c.eq(t, 2)), v >= 0, v <= 127),
+               c.And(c.eq(t, 3), v >= 0),
+               c.And(c.eq(t, 4), v >= 1, v <= 127),
+               c.And(c.eq(t, 5), v >= 1))
+  res, err = c.raises(PE, t, v)
+  if err is not None:
+    c.check(isinstance(err, ValueError) and c.Not(legal),
+            'legal performance event rejected')
+    c.cover('illegal performance event rejected')
+  else:
+    c.check(legal, 'illegal performance event accepted')
+    c.check(c.And(c.eq(res.event_type, t), c.eq(res.event_value, v)),
+            'event keeps type and value')
+
+
 def h_velocity(c):
   pl = c.mod('performance_lib')
   n = c.concretize(c.int('bins', 1, 127))
@@ -163,6 +371,14 @@ def h_velocity(c):
           'velocity not above the original')
   c.check(c.eq(pl.velocity_to_bin(back, n), b),
           'bin-to-velocity is a right inverse of velocity-to-bin')
+  # ... on every bin 1..n, also for bin counts whose binning is not onto
+  # (these bins are classes of PerformanceOneHotEncoding(num_velocity_bins=n)).
+  # NOTE (not asserted, undocumented): for such bins the velocity exceeds 127,
+  # e.g. velocity_bin_to_velocity(100, 100) == 199.
+  b2 = c.int('bin', 1, 127)
+  c.assume(b2 <= n)
+  c.check(c.eq(pl.velocity_to_bin(pl.velocity_bin_to_velocity(b2, n), n), b2),
+          'bin-to-velocity is a right inverse on every bin 1..n')
 
 
 def h_density(c):
@@ -174,7 +390,8 @@ def h_density(c):
   cls = pc.NoteDensityPerformanceControlSignal.NoteDensityOneHotEncoding
   # a second object with other boundaries lives in the same process
   other = cls([1.0, 5.0])
-  enc = cls(list(bs))
+  given = list(bs)
+  enc = cls(given)
   c.check(enc.num_classes == nb + 1, 'num_classes')
   c.check([other.decode_event(k) for k in range(3)] == [0.0, 1.0, 5.0] and
           other.num_classes == 3,
@@ -194,6 +411,66 @@ def h_density(c):
           'encode(decode(j)) == j for strictly increasing boundaries')
   if nb:
     c.cover('event exactly on a boundary', c.eq(x, bs[0]))
+  c.check([other.encode_event(q) for q in (0.0, 0.5, 1.0, 3.0, 5.0, 7.5)] ==
+          [0, 0, 1, 1, 2, 2],
+          'the other encoding still bins with its own boundaries')
+  _density_default_ok(c, enc, bs)
+  c.check(c.eq(enc.event_to_num_steps(x), 1),
+          'event_to_num_steps defaults to one')
+  c.check(len(given) == nb and c.And([c.eq(g, b) for g, b in zip(given, bs)]
+                                     + [True]),
+          'boundary list left unmodified')
+
+
+def _in_bin(c, bs, k, x):
+  """x lies in bin k of the boundaries bs (bin 0 starts at zero)."""
+  nb = len(bs)
+  conds = [True]
+  if k > 0:
+    conds.append(bs[k - 1] <= x)
+  if k < nb:
+    conds.append(x < bs[k])
+  return c.And(conds)
+
+
+def _density_default_ok(c, enc, bs):
+  d = enc.default_event
+  k = c.concretize(enc.encode_event(d))
+  c.check(0 <= k <= len(bs), 'default event encodes into [0, num_classes)')
+  c.check(c.And(d >= 0, _in_bin(c, bs, k, d)),
+          'default event lies in the bin it was assigned')
+
+
+def h_density_signal(c):
+  """The encoding as obtained from the public control signal object."""
+  pc = c.mod('performance_controls')
+  nb = c.params['B']
+  bs = [c.real('b%d' % i, 0) for i in range(nb)]
+  for a, b in zip(bs, bs[1:]):
+    c.assume(a <= b)
+  ws = c.real('window_size_seconds', 0)
+  given = list(bs)
+  other = pc.NoteDensityPerformanceControlSignal(3.0, [1.0, 5.0])
+  sig = pc.NoteDensityPerformanceControlSignal(
+      density_bin_ranges=given, window_size_seconds=ws)
+  e = sig.encoder
+  c.check(e.num_classes == nb + 1,
+          'signal encoder has one class more than boundaries')
+  x = c.real('x', 0)
+  k = c.concretize(e.events_to_label([0.0, x], 1))
+  c.check(0 <= k <= nb, 'label lands in [0, num_classes)')
+  c.check(_in_bin(c, bs, k, x), 'x lies in the bin of its label')
+  c.check(c.eq(e.class_index_to_event(k, []), 0 if k == 0 else bs[k - 1]),
+          'label decodes to the lower bound of the bin')
+  oe = other.encoder
+  c.check(oe.num_classes == 3 and
+          [oe.events_to_label([q], 0) for q in (0.5, 3.0, 7.5)] == [0, 1, 2]
+          and [oe.class_index_to_event(j, []) for j in range(3)] ==
+          [0.0, 1.0, 5.0],
+          'a signal is not disturbed by another one with other boundaries')
+  c.check(len(given) == nb and c.And([c.eq(g, b) for g, b in zip(given, bs)]
+                                     + [True]),
+          'boundary list left unmodified')
 
 
 def h_drums_decode(c):
@@ -207,15 +484,36 @@ def h_drums_decode(c):
   c.check(c.eq(enc.encode_event(ev), i), 'encode(decode(i)) == i')
   c.check(all(p == enc._drum_map[enc._inverse_drum_map[p]][0] for p in ev),
           'decoded pitches are the canonical pitch of their drum type')
+  iv = c.concretize(i)
+  firsts = [row[0] for row in _DRUMS]
+  c.check(isinstance(ev, frozenset) and len(ev) == _popcount(iv) and
+          all(p in firsts for p in ev),
+          'one pitch per set bit, each the first pitch of a documented drum '
+          'type')
+  c.check(enc.event_to_num_steps(ev) == 1,
+          'event_to_num_steps defaults to one')
+  if iv == lo:
+    c.check(enc.encode_event(frozenset()) == 0 and
+            enc.decode_event(0) == frozenset(),
+            'no drum type present <-> no bit set')
+    d = enc.default_event
+    k, derr = c.raises(enc.encode_event, d)
+    c.check(derr is None and 0 <= k < 512 and
+            enc.decode_event(k) == _canonical_drums(d, _DRUMS),
+            'default event is encodable and round-trips')
 
 
 def h_drums_encode(c):
   ded = c.mod('drums_encoder_decoder')
   enc = ded.MultiDrumOneHotEncoding()
-  table = sorted(enc._inverse_drum_map) + [0, 127]
+  table = sorted(set(enc._inverse_drum_map) |
+                 set(p for row in _DRUMS for p in row)) + [0, 127]
   k = c.params['K']
   sub = table[c.params['lo']:c.params['hi']]
-  ps = [c.choice('p%d' % j, table if j else sub) for j in range(k)]
+  rest = table[::c.params.get('step', 1)]
+  if c.params.get('step', 1) > 1:
+    rest = rest + [0, 35, 37]
+  ps = [c.choice('p%d' % j, rest if j else sub) for j in range(k)]
   ev = frozenset(ps)
   idx = enc.encode_event(ev)
   c.check(0 <= idx < 512, 'encode lands in [0, num_classes)')
@@ -228,6 +526,62 @@ def h_drums_encode(c):
   c.check((err is not None and isinstance(err, ded.DrumsEncodingError))
           if unknown else (err is None and res == idx),
           'unknown drums raise DrumsEncodingError iff not ignored')
+  # the documented table, not the object's own maps, as the oracle
+  canon = _canonical_drums(ps, _DRUMS)
+  c.check(_popcount(idx) == len(canon),
+          'one bit per documented drum type present')
+  c.check(enc.decode_event(idx) == canon,
+          'decode(encode(e)) = first pitch of each documented drum type of e')
+  c.check(unknown == any(all(p not in row for row in _DRUMS) for p in ps),
+          'unknown pitches are those outside the documented table')
+  sd, serr = c.raises(strict.decode_event, idx)
+  c.check(strict.num_classes == 512 and serr is None and sd == canon,
+          'strict encoding has the same classes')
+  again, aerr = c.raises(enc.encode_event, ev)
+  c.check(aerr is None and again == idx and enc.num_classes == 512,
+          'an encoding is not disturbed by a second drum encoding')
+
+
+def h_drums_custom(c):
+  """drum_type_pitches given by the caller (also as keyword)."""
+  ded = c.mod('drums_encoder_decoder')
+  first = ded.MultiDrumOneHotEncoding()
+  tab = _CUSTOM_DRUMS[c.params['table']]
+  given = [list(r) for r in tab]
+  ignore = c.params['ignore']
+  enc = ded.MultiDrumOneHotEncoding(drum_type_pitches=given,
+                                    ignore_unknown_drums=ignore)
+  nt = len(tab)
+  n = enc.num_classes
+  c.check(n == 2 ** nt, 'one class per set of drum types (custom table)')
+  lo, hi = c.params.get('range', [0, 2 ** nt - 1])
+  i = c.int('index', lo, hi)
+  ev = enc.decode_event(i)
+  iv = c.concretize(i)
+  c.check(c.eq(enc.encode_event(ev), i), 'encode(decode(i)) == i (custom)')
+  c.check(len(ev) == _popcount(iv) and
+          all(p in [r[0] for r in tab] for p in ev),
+          'one pitch per set bit, each the first pitch of a given drum type')
+  if iv % 64 == 0:
+    pool = sorted(set(p for r in tab for p in r)) + [0, 38, 127]
+    ps = [c.choice('p%d' % j, pool) for j in range(2)]
+    e = frozenset(ps)
+    unknown = any(all(p not in r for r in tab) for p in ps)
+    res, err = c.raises(enc.encode_event, e)
+    if unknown and not ignore:
+      c.check(err is not None and isinstance(err, ded.DrumsEncodingError),
+              'unknown drums raise DrumsEncodingError iff not ignored (custom)')
+    else:
+      canon = _canonical_drums(ps, tab)
+      c.check(err is None and 0 <= res < n and _popcount(res) == len(canon),
+              'encode lands in [0, num_classes) (custom)')
+      c.check(enc.decode_event(res) == canon,
+              'decode(encode(e)) = first pitch of each given drum type of e')
+    c.check(given == [list(r) for r in tab], 'drum table left unmodified')
+    c.check(first.num_classes == 512 and
+            first.decode_event(first.encode_event(frozenset([35, 40, 62, 21])))
+            == frozenset([36, 38, 50]),
+            'the default encoding is not disturbed by a custom one')
 
 
 def h_chords_decode(c):
@@ -240,6 +594,23 @@ def h_chords_decode(c):
   i = c.int('index', 0, n - 1)
   ev = enc.decode_event(i)
   c.check(c.eq(enc.encode_event(ev), i), 'encode(decode(i)) == i')
+  # documented layout: 0 no chord, 1-12 major (1 is C, 2 is C#, ...), 13-24
+  # minor, 25-36 augmented, 37-48 diminished
+  iv = c.concretize(i)
+  if iv == 0:
+    c.check(ev == 'N.C.', 'class 0 is no-chord')
+  else:
+    quals = [cs.CHORD_QUALITY_MAJOR, cs.CHORD_QUALITY_MINOR,
+             cs.CHORD_QUALITY_AUGMENTED, cs.CHORD_QUALITY_DIMINISHED]
+    c.check(ev != 'N.C.' and _root_pc(ev) == (iv - 1) % 12 and
+            cs.chord_symbol_quality(ev) == quals[(iv - 1) // 12],
+            'class index is root + 1 + 12 * triad quality (documented layout)')
+  c.check(enc.event_to_num_steps(ev) == 1,
+          'event_to_num_steps defaults to one')
+  d = enc.default_event
+  k, derr = c.raises(enc.encode_event, d)
+  c.check(derr is None and 0 <= k < n and enc.decode_event(k) == d,
+          'default event is encodable and round-trips')
 
 
 def h_chords_encode(c):
@@ -262,6 +633,11 @@ def h_chords_encode(c):
       c.check(cs.chord_symbol_root(back) == root and
               cs.chord_symbol_quality(back) == qual,
               'decode(encode(chord)) has the same root and triad quality')
+      blocks = [cs.CHORD_QUALITY_MAJOR, cs.CHORD_QUALITY_MINOR,
+                cs.CHORD_QUALITY_AUGMENTED, cs.CHORD_QUALITY_DIMINISHED]
+      c.check(res == _root_pc(fig) + 1 + 12 * blocks.index(qual),
+              'class index is root + 1 + 12 * triad quality (documented '
+              'layout)')
       c.cover('encodable chord')
     else:
       c.check(err is not None and isinstance(err, ced.ChordEncodingError),
@@ -279,6 +655,11 @@ HARNESSES = {
     'h_density': h_density,
     'h_drums_decode': h_drums_decode,
     'h_drums_encode': h_drums_encode,
+    'h_performance_defaults': h_performance_defaults,
+    'h_performance_foreign': h_performance_foreign,
+    'h_event_validator': h_event_validator,
+    'h_density_signal': h_density_signal,
+    'h_drums_custom': h_drums_custom,
     'h_chords_decode': h_chords_decode,
     'h_chords_encode': h_chords_encode,
 }
@@ -286,6 +667,9 @@ HARNESSES = {
 _ROOTS = [s + a for s in 'ABCDEFG' for a in ('', '#', 'b', '##', 'bb')]
 _KINDS = ['', 'm', '+', 'dim', '7', 'maj7', 'm7', 'sus', '5', 'm7b5', 'aug7',
           '6', 'm6', '9', 'mMaj7', 'o7']
+# other spellings of the chord grammar (quick tier: one root each)
+_KINDS2 = ['maj', 'min', 'M', '-', 'aug', 'sus4', 'add9', '13', 'M7', 'min7',
+           '7(b9)', 'm(maj7)', 'dim7', '+7', '7#5', 'mb5', '(b5)', 'maj(#5)']
 
 
 def jobs(tier):
@@ -318,6 +702,23 @@ def jobs(tier):
       if deep or n % 9 == 0:
         add('h_chords_encode', figure=r + kd + ('/' + _ROOTS[(n * 3) % 35]
                                                 if n % 4 == 0 else ''))
+  for n2, kd in enumerate(_KINDS2):
+    for r in (_ROOTS if deep else [_ROOTS[(n2 * 7 + 3) % 35]]):
+      add('h_chords_encode', figure=r + kd)
+  for form in ('none', 'bins', 'shift', 'pitch', 'all'):
+    add('h_performance_defaults', form=form)
+  for et in (4, 5):
+    add('h_performance_foreign', etype=et)
+  add('h_event_validator')
+  for b in (0, 1, 2, 3):
+    add('h_density_signal', B=b)
+  add('h_drums_custom', table='small', ignore=True)
+  add('h_drums_custom', table='small', ignore=False)
+  for lo in range(0, 1024, 256):
+    add('h_drums_custom', table='big', ignore=True, range=[lo, lo + 255])
+  for lo in range(0, 65, 8):
+    # triples: first pitch sweeps the table, the others a thinned table
+    add('h_drums_encode', K=3, lo=lo, hi=lo + 8, step=5, budget=900)
   if deep:
     add('h_density', B=4, budget=900)
     for lo in range(0, 63, 4):
